@@ -14,12 +14,20 @@ Binders
   L  large flat instances (10^2..10^3 tuples, seeded description expanded and judged by TLC, step-wise run of the
      operational layer checked against the declarative layer) stress the hash based ValueStore.
 
-Mutants (mutants/C10/*.diff), all DETECTED by the quick tier:
-  lexical-compare        ICValueHasher::isDuplicateOf compares the lexical strings
-  keyref-innermost-only  ValueStoreCache::endElement does not carry key tables up to the enclosing element
-  second-field-ignored   ValueStore::addValue no longer reports a field that matches twice
-  hash-first-field-only  ICValueHasher::equals compares only the first field of a tuple
-  union-second-path      XPathMatcher: the second member of a selector union never matches
+Mutants (mutants/C10/*.diff; results of bin/mutant-run are recorded in mutants/C10/RESULTS.txt):
+  lexical-compare          ICValueHasher::isDuplicateOf compares the lexical strings instead of the values
+  keyref-innermost-only    ValueStoreCache::endElement drops the child's key tables instead of carrying them up
+  second-field-ignored     ValueStore::addValue silently ignores a field that matches a second time
+  tuple-every-other-field  ICValueHasher::equals compares only every other field of a tuple
+  union-last-member        SelectorMatcher::startElement never looks at the last member of a selector union
+  hash-lexical             ICValueHasher::getHashVal hashes the lexical form (equal values land in different buckets)
+  absent-key-first-node    ValueStore::endValueScope reports an absent key only once a tuple has been stored
+
+Genuine deviations of the pinned code found by this check (known_findings.d/C10.json; D-numbers as in the module
+comment of spec/IdentityConstraints.tla): D1 sibling scopes lose key tables, D1+D2 conflicting entries of sibling
+tables are not removed, D3 IC_KeyRefOutOfScope for a keyref that selects nothing, D6 nested selected nodes share the
+current tuple, D7 .//@a stops below the first element whose attribute matched.
+Binder V (hook H10 of DESIGN.md) is not built: the public error reporter seam gives the observation the property names.
 """
 import json
 import os
@@ -82,7 +90,6 @@ def _large_descr(n, seed):
     """Reduced description of a large instance: n keys with ids a*k+b in rotating lexical forms, references to them,
     and a few single mutations. Only numbers are chosen here; TLC expands the description into the tree and judges it."""
     rnd = random.Random(C.seed() * 7919 + seed)
-    muts = []
     kinds = ["none", "dupkey", "dangling", "missingkey", "dupkey-lex", "valid-lexref"]
     which = kinds[seed % len(kinds)]
     return dict(n=n, a=rnd.choice([1, 3, 7]), b=rnd.randrange(1, 50), mut=which, pos=rnd.randrange(2, n), pos2=rnd.randrange(2, n),
